@@ -4,6 +4,8 @@ import (
 	"fmt"
 	"go/token"
 	"go/types"
+	"sort"
+	"strings"
 
 	"dblint/internal/core"
 
@@ -13,7 +15,7 @@ import (
 func init() {
 	register(&Spec{ID: "C13", Title: "Cancelled or closed channels never block and never deliver", Run: runC13,
 		Meta: core.Meta{
-			Explanation: "Structural conditions of non-blocking behaviour; durations are not decided. R13.1: every blocking receive on Channel.packageCh, Channel.errCh or Conn.errCh is a select that also receives from Done() of the caller's context and of the connection context, each branch returning an error that wraps the respective Err() with %w; plain receives occur only after close() of the same channel (the drain in Close). R13.2 (E-LOCK, blocking-under-lock): every send on those channels is examined — a bare send (no select with an escape) executed while the channel's RWMutex is held blocks Close (which needs the write lock); a bare send on Conn.errCh parks the reader goroutine beyond Conn.Close. R13.3: every *Channel method that touches the queues or Go channels tests `closed` under the channel lock first (closed edge returns ErrChannelClosed or returns without effect); Close sets closed under the write lock, removes the channel from the connection, and closes both Go channels before draining them. R13.4: in sendPackets every sendPacket call lies in the default arm of a non-blocking select over the caller's and the connection's Done(). R13.5: every path through Conn.Close calls ctxCancel() and conn.Close() and closes the snapshot of channels; Logout bounds its waits with context.WithTimeout. R13.6: the reader loop tests the connection context at its head with an exit and passes that context to Packet.ReadFrom. R13.7 (E-LOCK): no call (including deferred calls, replayed LIFO at each exit) re-acquires a sync.RWMutex the caller already holds — recursive read locking deadlocks against a pending writer. R13.8: in every *Channel method with a ctx parameter, every context argument passed on derives from that parameter.",
+			Explanation: "Structural conditions of non-blocking behaviour; durations are not decided. R13.1: every blocking receive on Channel.packageCh, Channel.errCh or Conn.errCh is a select that also receives from Done() of the caller's context and of the connection context, each branch returning an error that wraps the respective Err() with %w; plain receives occur only after close() of the same channel (the drain in Close). R13.2 (E-LOCK, blocking-under-lock): every send on those channels is examined — a bare send (no select with an escape) executed while the channel's RWMutex is held blocks Close (which needs the write lock); a bare send on Conn.errCh parks the reader goroutine beyond Conn.Close. Bare sends on the reader goroutine's path (functions statically reachable from (*Conn).ReadFrom) are reported as one obligation per queue, bare sends anywhere else one per function. R13.3: every *Channel method that touches the queues or Go channels tests `closed` under the channel lock first (closed edge returns ErrChannelClosed or returns without effect); Close sets closed under the write lock, removes the channel from the connection, and closes both Go channels before draining them. R13.4: in sendPackets every sendPacket call lies in the default arm of a non-blocking select over the caller's and the connection's Done(). R13.5: every path through Conn.Close calls ctxCancel() and conn.Close() and closes the snapshot of channels; Logout bounds its waits with context.WithTimeout. R13.6: the reader loop tests the connection context at its head with an exit and passes that context to Packet.ReadFrom. R13.7 (E-LOCK): no call (including deferred calls, replayed LIFO at each exit) re-acquires a sync.RWMutex the caller already holds — recursive read locking deadlocks against a pending writer. R13.8: in every *Channel method with a ctx parameter, every context argument passed on derives from that parameter.",
 			NotDecided:  "Latencies, goroutine counts and races between cancel and delivery are not decided; schedules are not explored.",
 			Assumptions: []string{"sync.RWMutex blocks new readers behind a pending writer (documented)", "select semantics of the Go specification"},
 		}})
@@ -23,7 +25,7 @@ func runC13(r *core.Run) {
 	p := r.Prog
 	la := newLockAnalysis(p, "tds")
 	r.Rule("R13.1", "blocking receives on the package/error queues can be interrupted by both contexts", 2, true)
-	r.Rule("R13.2", "sends on the package/error queues offer an escape (not bare, not under the channel lock)", 8, false)
+	r.Rule("R13.2", "sends on the package/error queues offer an escape (not bare, not under the channel lock)", 3, false)
 	r.Rule("R13.3", "closed protocol: test under the lock first; Close tears down in order", 7, false)
 	r.Rule("R13.4", "context test before every packet write", 1, false)
 	r.Rule("R13.5", "Conn.Close always cancels, closes the transport and the channels; Logout is bounded", 3, false)
@@ -42,6 +44,38 @@ func runC13(r *core.Run) {
 		return f, ok
 	}
 
+	// the reader goroutine's code: everything statically reachable from (*Conn).ReadFrom
+	readerPath := map[*ssa.Function]bool{}
+	var mark func(fn *ssa.Function)
+	mark = func(fn *ssa.Function) {
+		if fn == nil || readerPath[fn] || !core.InModule(fn) {
+			return
+		}
+		readerPath[fn] = true
+		for _, c := range core.Calls(fn) {
+			mark(core.StaticCallee(c))
+		}
+		for _, a := range fn.AnonFuncs {
+			mark(a)
+		}
+	}
+	mark(p.Func("tds", "Conn", "ReadFrom"))
+	readerSends := map[*types.Var][]*ssa.Send{}
+	defer func() {
+		for f, name := range designated {
+			ss := readerSends[f]
+			if len(ss) == 0 {
+				continue
+			}
+			sort.Slice(ss, func(i, j int) bool { return ss[i].Pos() < ss[j].Pos() })
+			var at []string
+			for _, x := range ss {
+				at = append(at, p.Pos(x.Pos()))
+			}
+			r.Bad("R13.2", "reader goroutine: bare sends on "+name, ss[0].Pos(), fmt.Sprintf("%d bare send(s) on the bounded queue %s on the reader goroutine's path (%s): with a full queue the reader parks on the send (holding the channel's read lock where it is taken), is not ended by cancelling the connection context, and Close (write lock) never returns", len(ss), name, strings.Join(at, ", ")))
+		}
+	}()
+
 	for _, fn := range la.funcs {
 		for _, b := range fn.Blocks {
 			for _, in := range b.Instrs {
@@ -53,6 +87,12 @@ func runC13(r *core.Run) {
 					}
 					ls := la.At(x)
 					key := core.FuncName(fn) + ": bare send on " + designated[f]
+					if readerPath[fn] {
+						// one finding per queue for the reader goroutine (the defect is the hand-off design, not
+						// the individual statement): stable when a send moves into a helper of the reader path
+						readerSends[f] = append(readerSends[f], x)
+						continue
+					}
 					if _, held := ls["p0.RWMutex"]; held {
 						r.Bad("R13.2", key, x.Pos(), "bare send while the channel's RWMutex is held "+ls.String()+": with a full queue the sender parks holding the read lock and Close (write lock) never returns")
 					} else {
